@@ -33,7 +33,7 @@ func init() {
 		}}},
 		Run: run,
 		Floors: func(t string) map[string]int64 {
-			return map[string]int64{"coord.nan_payload": 100, "coord.neg_zero": 100, "nested.depth>=2": 100, "empty.member": 100, "mixed_order.decoded": 1000,
+			return map[string]int64{"coord.nan_payload": 100, "coord.neg_zero": 100, "nested.depth>=2": 100, "empty.member": 100, "mixed_order.decoded": 1000, "path.len>=255": 50,
 				"type.Point": 10, "type.MultiPoint": 10, "type.LineString": 10, "type.MultiLineString": 10, "type.Polygon": 10, "type.MultiPolygon": 10, "type.GeometryCollection": 10}
 		},
 	})
@@ -50,6 +50,24 @@ func GenGeom(r *gen.R, maxDepth int, coord func(*gen.R) float64) geom.Geom {
 		o.MaxVerts = 40
 	}
 	g := gen.RandGeom(r, o, 0)
+	if r.Chance(0.04) {
+		// long paths (beyond any internal read-chunk size of the decoder: 255, 256, 257, 512, 1000+ points)
+		n := []int{255, 256, 257, 511, 512, 513, 1000, 2049}[r.Intn(8)]
+		pts := make([]geom.Point, n)
+		for i := range pts {
+			pts[i] = geom.Point{X: coord(r), Y: coord(r)}
+		}
+		switch r.Intn(4) {
+		case 0:
+			g = geom.LineString(pts)
+		case 1:
+			g = geom.Polygon{pts[:n/2], pts[n/2:]}
+		case 2:
+			g = geom.MultiPoint(pts)
+		default:
+			g = geom.GeometryCollection{geom.MultiLineString{pts}, geom.Point{X: coord(r), Y: coord(r)}}
+		}
+	}
 	// deep chains of collections
 	if r.Chance(0.15) {
 		k := r.IntRange(1, maxDepth)
@@ -164,6 +182,9 @@ func run(c *core.Ctx, idx int) {
 		c.Count("nested.depth>=2")
 	}
 	c.Max("nesting_depth", float64(d))
+	if g.Len() >= 255 {
+		c.Count("path.len>=255")
+	}
 	special := coordStats(c, g)
 	empty := hasEmptyMember(g)
 	if empty {
